@@ -127,3 +127,20 @@ Proof.
   - apply unchunked_R_call; assumption.
 Qed.
 Print Assumptions C19_rf_write_blocks_continuous_unchunked.
+
+(* the same in the chunked continuous layouts (compression or checksums enabled) *)
+Theorem C19_rf_write_blocks_continuous_chunked : forall c ps s G D vec,
+  vcfg c -> c_chunk c = true -> c_cont c = true -> (1 < length G)%nat ->
+  PyInv (refines c) ps s -> first_nonneg (combine G D) ->
+  if py_arrays_ok (s_cur s) (zlen vec) G D
+  then exists st', snd (py_rf_write_blocks c ps G D vec) =
+                     mkPy (w_gi st') (p_written ps + zlen vec) (p_gap ps + ((w_gi st' - p_next ps) - zlen vec)) false st' /\
+                   fst (py_rf_write_blocks c ps G D vec) = (OK, w_gi st') /\
+                   refines c st' (fold_left (spec_step c) (blocks_of G D vec (zlen vec)) s)
+  else (exists code, py_rf_write_blocks c ps G D vec = ((ValueError, code), ps)).
+Proof.
+  intros c ps s G D vec Hc Hch Hco. apply (py_rf_write_blocks_continuous c (refines c)); try assumption.
+  - intros st s0 H. exact (proj1 (proj2 H)).
+  - apply chunked_R_call; assumption.
+Qed.
+Print Assumptions C19_rf_write_blocks_continuous_chunked.
